@@ -22,7 +22,7 @@ from hypothesis import strategies as st
 
 from vlib import gen_text as T
 from vlib import widths as W
-from vlib.runner import Discard, Violation
+from vlib.runner import Discard, Violation, innermost_is_urwid, urwid_frame
 from vlib.vtmodel import DEC_SPECIAL, VT
 from vlib.widths import use_encoding
 
@@ -484,6 +484,18 @@ def compare(rig, canvas, pal, depth, bib, mode, where, partial=False, raw_canvas
                               f"visible={vt.cursor_visible}")
 
 
+def _draw(rig, size, canvas, where):
+    """draw_screen; an exception raised inside urwid becomes the Violation the runner would make of it, so that
+    the facts the known-finding predicates need can be attached"""
+    try:
+        rig.screen.draw_screen(size, canvas)
+    except Exception as e:  # noqa: BLE001
+        if not innermost_is_urwid(e):
+            raise
+        raise _viol(f"exception:{type(e).__name__}@{urwid_frame(e)}",
+                    f"{where} [{rig.label}]: {type(e).__name__}: {e}") from e
+
+
 def render_widget(wspec, size, enc):
     """box widget spec -> canvas of exactly `size`, or Discard (C01 territory)"""
     import urwid
@@ -617,12 +629,13 @@ def check_history(case):
                 raise AssertionError(step)
 
             # ---- a draw ----
-            inc.screen.draw_screen((cols, rows), canvas)
-            full.screen.clear()
-            full.screen.draw_screen((cols, rows), canvas)
             where = f"after step {i} ({kind}, {cols}x{rows}, {depth} colours)"
-            sent = [rig.pump() for rig in rigs]
+            sent = ["", ""]
             try:
+                _draw(inc, (cols, rows), canvas, where)
+                full.screen.clear()
+                _draw(full, (cols, rows), canvas, where)
+                sent = [rig.pump() for rig in rigs]
                 for rig in rigs:
                     compare(rig, canvas, pal, depth, bib, mode, where, not alt, "rows" in last_spec)
             except Violation as v:
@@ -1129,26 +1142,29 @@ def _run_chars(run, enc):
 
 
 def _k_last_row_prev_segment(sub, case, v):
-    # _last_row, "we need another segment": when the bottom-right character starts the last run, y is taken from
-    # row[-2] without checking that this run exists and has a column
+    # _last_row assumes that the last run of the row is not empty and, when the bottom-right character starts it
+    # ("we need another segment"), that row[-2] exists and holds a character with a column
     if sub != "history":
         return False
-    if v.clause == "exception:IndexError@display/_raw_display_base.py:_last_row":
-        # no previous run at all: a 2-column screen whose last row is one double-width character
-        return "assignment" in v.message and any(
-            cols == 2 and (cells is None or [c[0] for c in cells[-1]][1:] == [""])
-            for _k, cols, _rows, cells, _prev in _walk_history(case))
-    if v.clause not in ("cell-glyph", "cell-attr"):
-        return False
-    d = v.data
+    d = getattr(v, "data", {})
     rows = _content_rows(v)
-    if not rows or d.get("y") != d["rows"] - 1 or len(rows[-1]) < 2:
+    if not rows:
         return False
-    last = _run_chars(rows[-1][-1], d["enc"])
-    prev_cols = sum(c[0] for c in _run_chars(rows[-1][-2], d["enc"]))
+    last_row = rows[-1]
+    empty_run = any(text == "" for _a, _cs, text in last_row)
+    if v.clause in ("exception:IndexError@display/_raw_display_base.py:_last_row",
+                    "exception:IndexError@str_util.py:within_double_byte"):
+        # no previous run at all (a 2-column screen whose last row is one double-width character), or an empty run
+        single_wide = (d["cols"] == 2 and len(last_row) == 1
+                       and [c[0] for c in _run_chars(last_row[0], d["enc"]) if c[0]] == [2])
+        return single_wide or empty_run
+    if v.clause not in ("cell-glyph", "cell-attr") or d.get("y") != d["rows"] - 1 or len(last_row) < 2:
+        return False
+    last = _run_chars(last_row[-1], d["enc"])
+    prev_cols = sum(c[0] for c in _run_chars(last_row[-2], d["enc"]))
     # the bottom-right character is the only one with a column in the last run, and either the previous run holds
     # zero-width characters only or the last run starts with zero-width characters (which belong to y's cell)
-    return len([c for c in last if c[0]]) == 1 and (prev_cols == 0 or last[0][0] == 0)
+    return empty_run or (len([c for c in last if c[0]]) == 1 and (prev_cols == 0 or last[0][0] == 0))
 
 
 def _k_alias(sub, case, v):
